@@ -15,8 +15,8 @@ from sim import core, tasks
 from sim.runner import Check
 from sim.streams import SimFile
 
-ALGS = sorted(a for a in hashlib.algorithms_guaranteed
-              if not a.startswith('shake_'))
+ALGS = sorted(a for a in hashlib.algorithms_available
+              if not a.startswith('shake'))
 CHUNKS = (1, 2, 7, 64, 4096, 65536)
 ERRNOS = sorted(errno.errorcode)
 
@@ -52,11 +52,26 @@ class BackendError(OSError):
     is not one of the built-in errno-specific subclasses."""
 
 
+NONOS = {
+    'ValueError': lambda: ValueError('embedded null byte'),
+    'UnicodeEncodeError': lambda: UnicodeEncodeError(
+        'utf-8', '\udcff', 0, 1, 'surrogates not allowed'),
+    'TypeError': lambda: TypeError('injected'),
+    'RuntimeError': lambda: RuntimeError('injected'),
+    'KeyError': lambda: KeyError('injected'),
+    'LookupError': lambda: LookupError('injected'),
+}
+
+
 def make_oserror(e, style, *info):
     """An OSError with errno e, built the way different callers build them:
     'auto' - OSError(e, ...) (Python picks FileNotFoundError etc.),
     'subclass' - a backend's own OSError subclass carrying the errno,
     'assigned' - a bare OSError whose errno is assigned afterwards."""
+    if isinstance(e, str):
+        # not an OSError at all (what a path with an embedded NUL, a wrong
+        # argument type or a backend's own error class produces)
+        return NONOS[e]()
     msg = 'injected %s' % errno.errorcode.get(e, e)
     if style == 'subclass':
         return BackendError(e, msg, *info)
@@ -167,7 +182,8 @@ class C20(Check):
     FAULT_KINDS = ('short_read', 'read_error', 'seek_error',
                    'task_switch_at_io', 'size_metadata_disagrees',
                    'errno_on_makedirs', 'errno_on_remove', 'errno_on_write',
-                   'errno_on_close', 'errno_on_mkstemp')
+                   'errno_on_close', 'errno_on_mkstemp',
+                   'non_oserror_on_makedirs', 'non_oserror_on_remove')
     PROBES = ('final_short_chunk', 'exact_multiple', 'empty_file',
               'chunk_larger_than_file', 'EEXIST_on_file', 'EEXIST_on_dir',
               'ENOENT_swallowed', 'n_larger_than_file', 'real_file_route',
@@ -183,6 +199,13 @@ class C20(Check):
                 for state in ('missing', 'file'):
                     self.sweep.append({'fn': 'delete_if_exists', 'errno': e,
                                        'state': state, 'style': style})
+        for name in sorted(NONOS):
+            for state in ('missing', 'dir', 'file'):
+                self.sweep.append({'fn': 'ensure_tree', 'errno': name,
+                                   'state': state, 'style': 'auto'})
+            for state in ('missing', 'file'):
+                self.sweep.append({'fn': 'delete_if_exists', 'errno': name,
+                                   'state': state, 'style': 'auto'})
         self.RUNS = {'quick': len(self.sweep) + 50000,
                      'thorough': len(self.sweep) + 3000000}
 
@@ -803,6 +826,9 @@ class C20(Check):
                 self.bump('probes', 'EEXIST_on_dir' if case['state'] == 'dir'
                           else 'EEXIST_on_file')
             want = ('ok',) if swallowed_ok else ('oserror', e)
+            if isinstance(e, str):
+                self.bump('faults', 'non_oserror_on_makedirs')
+                want = ('exc', e)
             if outs[0] != want:
                 self.viol('ensure_tree_errno_handling', errno=e,
                           name=errno.errorcode.get(e), state=case['state'],
@@ -870,6 +896,9 @@ class C20(Check):
         if e is not None:
             self.bump('faults', 'errno_on_remove')
             want = ('ok',) if e == errno.ENOENT else ('oserror', e)
+            if isinstance(e, str):
+                self.bump('faults', 'non_oserror_on_remove')
+                want = ('exc', e)
             if e == errno.ENOENT:
                 self.bump('probes', 'ENOENT_swallowed')
             if outs[0] != want:
